@@ -99,7 +99,7 @@ where
     b = -b;
     let a = a.into_iter();
 
-    let mut q = vec![F::ZERO; a.len() - 1];
+    let mut q = vec![F::ZERO; a.len().saturating_sub(1)];
 
     let mut tmp = F::ZERO;
     for (q, r) in q.iter_mut().rev().zip(a.rev()) {
